@@ -49,8 +49,8 @@ def payload(sizes, base):
 def programs(tier):
     progs = []
     if tier == "quick":
-        msgsets = [([1, 100], [0, 16385]), ([16384], [1]), ([0, 3], [])]
-        recvs = [7, 65536]
+        msgsets = [([1, 100], [0, 16385]), ([16384], [1]), ([0, 3], []), ([2, 5, 3], [4, 4])]
+        recvs = [4, 7, 65536]
         policies = ["all", "1", "7"]
     else:
         msgsets = [([0, 1, 100], [16384]), ([16385, 1], [40000]), ([40000, 16384, 1], [100, 0]),
@@ -62,14 +62,21 @@ def programs(tier):
             for cm, sm in msgsets:
                 for rs in recvs:
                     for pol in policies:
-                        if tier == "quick" and sum(cm) + sum(sm) > 2000 and (pol == "1" or rs == 7):
+                        if tier == "quick" and sum(cm) + sum(sm) > 2000 and (pol == "1" or rs < 100):
+                            continue
+                        if rs == 4 and sum(cm) + sum(sm) > 100:
                             continue
                         if rs == 1 and sum(cm) + sum(sm) > 2000:
                             continue
-                        progs.append({"custom": "mc.families.c17_tls:build", "version": ver,
-                                      "standard_compatible": sc, "client_msgs": cm,
-                                      "server_msgs": sm, "recv_size": rs, "policy": pol,
-                                      "label": f"TLS{ver} sc={sc} c={cm} s={sm} recv={rs} chunks={pol}"})
+                        for delay in (False, True):
+                            if delay and (pol not in ("all", "7") or not sc):
+                                continue
+                            progs.append({"custom": "mc.families.c17_tls:build", "version": ver,
+                                          "standard_compatible": sc, "client_msgs": cm,
+                                          "server_msgs": sm, "recv_size": rs, "policy": pol,
+                                          "delay_reader": delay,
+                                          "label": f"TLS{ver} sc={sc} c={cm} s={sm} recv={rs} "
+                                                   f"chunks={pol} delay_reader={delay}"})
     return progs
 
 
@@ -100,6 +107,7 @@ def build(world, program):
                                                   standard_compatible=sc)
             except BaseException as e:
                 log("wrap_exc", role, type(e).__name__, isinstance(e, ssl.SSLError))
+                sent_all[role].set()
                 if isinstance(e, asyncio.CancelledError):
                     raise
                 await end.aclose()
@@ -108,18 +116,24 @@ def build(world, program):
             got = 0
 
             async def tx():
-                for m in mine:
-                    try:
-                        await stream.send(m)
-                        log("sent", role, len(m))
-                    except BaseException as e:
-                        log("send_exc", role, type(e).__name__)
-                        if isinstance(e, asyncio.CancelledError):
-                            raise
-                        return
+                try:
+                    for m in mine:
+                        try:
+                            await stream.send(m)
+                            log("sent", role, len(m))
+                        except BaseException as e:
+                            log("send_exc", role, type(e).__name__)
+                            if isinstance(e, asyncio.CancelledError):
+                                raise
+                            return
+                finally:
+                    sent_all[role].set()
 
             async def rx(limit):
                 nonlocal got
+                if program.get("delay_reader") and limit is not None:
+                    # read only after the peer has written everything (records get coalesced)
+                    await sent_all["server" if role == "client" else "client"].wait()
                 while limit is None or got < limit:
                     try:
                         data = await stream.receive(rs)
@@ -157,6 +171,7 @@ def build(world, program):
                         raise
 
         chunks = {"client": [], "server": []}
+        sent_all = {"client": anyio.Event(), "server": anyio.Event()}
         world.objs["chunks"] = chunks
         async with anyio.create_task_group() as tg:
             tg.start_soon(side, "client")
